@@ -100,10 +100,16 @@ def build(kind, p):
         return T.ProxyTransmissionMode(L.TransmissionMode(p["m"]))
     if kind == "otid":
         return T.OriginatingTransactionId(L.TransactionId(L.UBF(p["id"], p["w"]), L.UBF(p["seq"], p["sw"])))
-    if kind == "dirreq":
-        return T.DirectoryListingRequest(T.DirectoryParams(L.CfdpLv(bt(p["dir"])), L.CfdpLv(bt(p["file"]))))
-    if kind == "dirresp":
-        return T.DirectoryListingResponse(bool(p["ok"]), T.DirectoryParams(L.CfdpLv(bt(p["dir"])), L.CfdpLv(bt(p["file"]))))
+    if kind in ("dirreq", "dirresp"):
+        via = p.get("via", "lv")
+        if via == "lv":
+            dp = T.DirectoryParams(L.CfdpLv(bt(p["dir"])), L.CfdpLv(bt(p["file"])))
+        elif via == "strs":  # the str entry point: the name octets are the UTF-8 encoding of the strings as given
+            dp = T.DirectoryParams.from_strs(bt(p["dir"]).decode("utf-8"), bt(p["file"]).decode("utf-8"))
+        else:  # the pathlib entry point: the name octets are str(path) - pathlib's own spelling, nothing else
+            import pathlib
+            dp = T.DirectoryParams.from_paths(pathlib.PurePosixPath(bt(p["dir"]).decode("utf-8")), pathlib.PurePosixPath(bt(p["file"]).decode("utf-8")))
+        return T.DirectoryListingRequest(dp) if kind == "dirreq" else T.DirectoryListingResponse(bool(p["ok"]), dp)
     if kind == "listopt":
         return T.DirectoryListingParameters(T.DirListingOptions(bool(p["rec"]), bool(p["all"])))
     raise ValueError(kind)
@@ -292,6 +298,14 @@ def _check_message(rec, L, case, kind, p, keep):
         else:
             if obs != exp:
                 bad(f"params/{getter}/values", obs, exp)
+            else:  # reading the parameters is a pure observation: a second read gives the same answer
+                try:
+                    obs2 = observe_params(kind, getattr(r, getter)())
+                except Exception as e:
+                    bad(f"params/{getter}/second-read/exception", _exc(e), exp)
+                else:
+                    if obs2 != exp:
+                        bad(f"params/{getter}/second-read/values", obs2, exp)
     check_classification(rec, case, r, msg_type, bad)
     rec.outcome(f"{kind}/len={len(ref)}/ok")
     return ref
@@ -440,6 +454,8 @@ def shards(tier):
         for sw in (1, 2, 4, 8):
             items.append({"kind": "otid", "w": w, "sw": sw, "tier": tier})
     items.append({"kind": "small", "tier": tier})
+    items.append({"kind": "widthcross", "tier": tier})
+    items.append({"kind": "entry", "tier": tier})
     items.append({"kind": "dir", "tier": tier})
     items.append({"kind": "types", "tier": tier})
     for p in range(NONRES_PARTS):
@@ -511,6 +527,36 @@ def run_shard(item):
             for a in (0, 1):
                 check_message(rec, "listopt", {"rec": b, "all": a})
         rec.count("fixed_size_messages", 1 + 2 + 2 + 4)
+    elif kind == "widthcross":
+        # the SAME numeric entity ID / sequence number in every width, one after the other in one process (the library's
+        # TransactionId and EntityIdTlv compare numbers only: anything keyed on them confuses the widths exactly here)
+        n = 0
+        vals = [0, 1, 5, 255] if tier == "quick" else [0, 1, 2, 5, 127, 128, 254, 255]
+        for x in vals:
+            for y in vals:
+                for w in (1, 2, 4, 8):
+                    for sw in (1, 2, 4, 8):
+                        check_message(rec, "otid", {"w": w, "id": x, "sw": sw, "seq": y})
+                        n += 1
+        for x in vals:
+            for w in (1, 2, 4, 8):
+                check_message(rec, "putreq", {"w": w, "id": x, "src": hx(b"s.txt"), "dst": hx(b"d.txt")})
+                n += 1
+        rec.count("same_value_in_every_width_cases", n)
+    elif kind == "entry":
+        # directory parameters through the str and the pathlib entry points; names written so that pathlib itself does
+        # not rewrite them (str(PurePosixPath(x)) == x), among them '..' components, which only a normaliser removes
+        names = ["/tmp", "/tmp/hello.txt", "a", "..", "../x", "/data/current/../archive", "a/../../b", "/a/b/..", "~/dir-listing.txt", "ä/ü.bin", "/", "." ]
+        import pathlib
+        assert all(str(pathlib.PurePosixPath(x)) == x for x in names)
+        n = 0
+        for via in ("strs", "paths"):
+            for d in names:
+                for f in names:
+                    check_message(rec, "dirreq", {"dir": hx(d.encode()), "file": hx(f.encode()), "via": via})
+                    check_message(rec, "dirresp", {"ok": 1, "dir": hx(d.encode()), "file": hx(f.encode()), "via": via})
+                    n += 2
+        rec.count("directory_messages_via_str_and_path_entry_points", n)
     elif kind == "dir":
         n = 0
         for src, dst in fit_pairs(tier, 255 - 5 - 2):
